@@ -76,7 +76,7 @@ def check(case):
     # one-frame scene == that frame's detection score; ground-truth counts add up
     m1, ev1 = manager("detection", targets)
     est = [build.obj3d(d) for d in case["frames"][0]["est"]]
-    cof, pfc = crit_cfg(ev1, targets, 50.0)
+    cof, pfc = crit_cfg(ev1, targets, case["calls"][0][1])      # also with a critical region that removes ground truths the evaluator filter kept
     f0 = FrameGroundTruth(0, "0", [build.obj3d(d) for d in case["frames"][0]["gt"]], transforms=build.ego_matrix(None))
     fr = m1.add_frame_result(0, f0, est, cof, pfc)
     scene = m1.get_scene_result()
@@ -84,6 +84,10 @@ def check(case):
     b = [(str(m.matching_mode), [round(x.ap, 9) for x in m.aps]) for m in scene.maps]
     if a != b:
         return f"one-frame scene score {b} differs from the frame's detection score {a}"
+    ga = [(str(m.matching_mode), [x.num_ground_truth for x in m.aps]) for m in fr.metrics_score.maps]
+    gb = [(str(m.matching_mode), [x.num_ground_truth for x in m.aps]) for m in scene.maps]
+    if ga != gb:
+        return f"one-frame scene counts ground truths {gb}, the frame itself {ga}"
     sc = mgr.get_scene_result()
     want = sum(1 for r in mgr.frame_results for o in r.frame_ground_truth.objects if o.semantic_label.label.value in targets)
     for m in sc.maps:
